@@ -231,6 +231,14 @@ func (b *replayBuilder) expr(v Value, t types.Type, depth int) (string, error) {
 				if err != nil {
 					return "", err
 				}
+				if bits, signed, ok := intBits(t); ok {
+					// cells the model leaves unconstrained may carry any integer: bring it into the type
+					m := new(big.Int).Mod(n, pow2(bits))
+					if signed && m.Cmp(pow2(bits-1)) >= 0 {
+						m.Sub(m, pow2(bits))
+					}
+					n = m
+				}
 				return fmt.Sprintf("%s(%s)", b.typeStr(t), n.String()), nil
 			case ut.Info()&types.IsString != 0:
 				ln, err := b.z.intValue(app(SInt, "strlen", x.T))
@@ -367,7 +375,7 @@ func (b *replayBuilder) expr(v Value, t types.Type, depth int) (string, error) {
 			}
 			return fmt.Sprintf("%s{%s}", b.typeStr(t), strings.Join(bs, ",")), nil
 		}
-		if n > 64 {
+		if n > 512 {
 			return "", fmt.Errorf("slice of %d non-byte elements", n)
 		}
 		var parts []string
@@ -474,6 +482,12 @@ func specToGo(e SExpr, names map[string]string, consts map[string]*big.Int, n *i
 			return "(!(" + a + ") || (" + c + "))", true
 		case "<==>":
 			return "((" + a + ") == (" + c + "))", true
+		case "==":
+			return "zzeq(" + a + ", " + c + ")", true
+		case "!=":
+			return "!zzeq(" + a + ", " + c + ")", true
+		case "<", "<=", ">", ">=":
+			return "(zzcmp(" + a + ", " + c + ") " + x.Op + " 0)", true
 		}
 		return "(" + a + " " + x.Op + " " + c + ")", true
 	case SCall:
@@ -507,6 +521,8 @@ func opFn(op string) string { return op }
 
 // buildReplay constructs the test source for one refuted obligation.
 func (u *Unit) buildReplay(o *Obligation, prop string, timeoutS int) *ReplayInfo {
+	u.mu.Lock()
+	defer u.mu.Unlock()
 	ri := &ReplayInfo{Property: prop, Obligation: o.Name, Kind: o.Kind, Function: shortFn(u.fn.String()), Pos: o.Pos,
 		SolverSays: o.Status, Solver: o.Solver, SolverOut: strings.TrimSpace(o.Output)}
 	switch o.Kind {
@@ -526,17 +542,18 @@ func (u *Unit) buildReplay(o *Obligation, prop string, timeoutS int) *ReplayInfo
 	script := u.script(o, u.finalActive)
 	// model-search heuristics (never part of a proof): prefer input slices with cap == len and small
 	// lengths, so that the model is an input a real caller could pass and a test can allocate
-	var h1, h2 strings.Builder
+	var h0, h1, h2 strings.Builder
 	for _, sr := range u.shapes {
 		if sr.line <= o.Prefix {
 			fmt.Fprintf(&h2, "(assert (= %s %s))\n", sr.len.S, sr.cap.S)
 			fmt.Fprintf(&h1, "(assert (<= %s 256))\n", sr.len.S)
+			fmt.Fprintf(&h0, "(assert (<= %s 8))\n", sr.len.S)
 		}
 	}
 	var z *z3sess
 	var status string
 	var err error
-	for _, extra := range []string{h2.String() + h1.String(), h2.String(), ""} {
+	for _, extra := range []string{h2.String() + h0.String(), h2.String() + h1.String(), h2.String(), ""} {
 		z, status, err = startZ3(script+extra, timeoutS)
 		if err != nil {
 			ri.Reason = "model session: " + err.Error()
@@ -648,7 +665,7 @@ func (u *Unit) buildReplay(o *Obligation, prop string, timeoutS int) *ReplayInfo
 
 func assembleTest(pkgName string, imports map[string]string, bodies []string) string {
 	var src strings.Builder
-	fmt.Fprintf(&src, "package %s\n\nimport (\n\t\"fmt\"\n\t\"testing\"\n", pkgName)
+	fmt.Fprintf(&src, "package %s\n\nimport (\n\t\"fmt\"\n\t\"testing\"\n\tzzreflect \"reflect\"\n\tzzbig \"math/big\"\n", pkgName)
 	var ips []string
 	for p := range imports {
 		ips = append(ips, p)
@@ -658,6 +675,7 @@ func assembleTest(pkgName string, imports map[string]string, bodies []string) st
 		fmt.Fprintf(&src, "\t%s %q\n", imports[p], p)
 	}
 	src.WriteString(")\n\nvar _ = fmt.Sprint\n\n")
+	src.WriteString(replayHelpers)
 	for _, b := range bodies {
 		src.WriteString(b)
 		src.WriteString("\n")
@@ -788,3 +806,55 @@ func tail(s string, n int) string {
 }
 
 var _ = ssa.NaiveForm
+
+const replayHelpers = `
+func zznum(v interface{}) (*zzbig.Int, bool) {
+	if v == nil {
+		return nil, false
+	}
+	rv := zzreflect.ValueOf(v)
+	switch rv.Kind() {
+	case zzreflect.Int, zzreflect.Int8, zzreflect.Int16, zzreflect.Int32, zzreflect.Int64:
+		return zzbig.NewInt(rv.Int()), true
+	case zzreflect.Uint, zzreflect.Uint8, zzreflect.Uint16, zzreflect.Uint32, zzreflect.Uint64:
+		return new(zzbig.Int).SetUint64(rv.Uint()), true
+	}
+	return nil, false
+}
+
+func zzisnil(v interface{}) bool {
+	if v == nil {
+		return true
+	}
+	rv := zzreflect.ValueOf(v)
+	switch rv.Kind() {
+	case zzreflect.Ptr, zzreflect.Slice, zzreflect.Map, zzreflect.Interface, zzreflect.Func, zzreflect.Chan:
+		return rv.IsNil()
+	}
+	return false
+}
+
+func zzeq(a, b interface{}) bool {
+	if a == nil || b == nil {
+		return zzisnil(a) && zzisnil(b)
+	}
+	if x, ok := zznum(a); ok {
+		if y, ok := zznum(b); ok {
+			return x.Cmp(y) == 0
+		}
+	}
+	return zzreflect.DeepEqual(a, b)
+}
+
+func zzcmp(a, b interface{}) int {
+	x, _ := zznum(a)
+	y, _ := zznum(b)
+	if x == nil || y == nil {
+		return 0
+	}
+	return x.Cmp(y)
+}
+
+var _ = zzcmp
+var _ = zzeq
+`
